@@ -737,6 +737,7 @@ def finish(rep: Report, stats):
         'identical_chunks_across_snapshot_pairs': stats.get('snapshot_shared_chunks', 0),
         'dominant_position_chunk_pairs_verified': stats.get('dominant_pairs_verified', 0),
         'streams_chunked_on_reused_adapter_objects': stats.get('session_streams', 0),
+        'streams_chunked_on_reused_adapter_objects': stats.get('session_streams', 0),
     }
 
 
